@@ -167,7 +167,8 @@ class TypeObject:
         self, self_val: Value, other_val: Value, ctx: CanAssignContext
     ) -> CanAssign:
         bounds_maps = []
-        for member in self.protocol_members:
+        # sorted so that the member reported as failing does not depend on set order
+        for member in sorted(self.protocol_members):
             expected = ctx.get_attribute_from_value(
                 self_val, member, prefer_typeshed=True
             )
@@ -268,7 +269,7 @@ class TypeObject:
         if self.is_protocol:
             return (
                 f"{base} (Protocol with members"
-                f" {', '.join(map(repr, self.protocol_members))})"
+                f" {', '.join(map(repr, sorted(self.protocol_members)))})"
             )
         return base
 
